@@ -56,22 +56,36 @@ def _mods():
     return Mechanics, FunctionSpace, Interpolants, QuadratureRule, Mesh, LinearElastic
 
 
-class Setup:
-    """parent element, quadrature rule and shape tables (ground data of the real code), one element"""
+# element blocks given to the single-element meshes: None (block-less mesh, accepted by the unchanged tree). When the tree under test
+# rejects block-less meshes, _blocks_or_report records that as a violation and switches to one block so that the rest is still decided.
+DEFAULT_BLOCKS = None
+TWO_BLOCKS = lambda: {'a': jnp.array([0]), 'b': jnp.array([1])}
+_UNSET = object()
+QUAD = [[0.0, 0.0], [1.0, 0.0], [0.0, 1.0], [1.0, 1.0]]      # two-element mesh: triangles (0,1,2) and (1,3,2)
 
-    def __init__(self, qdeg=2, degree=1, mode='plane strain'):
+
+class Setup:
+    """parent element, quadrature rule and shape tables (ground data of the real code); one element, or (nel=2) two P1 elements
+    sharing an edge; `blocks` = element blocks of the mesh (dict name -> element ids) or None"""
+
+    def __init__(self, qdeg=2, degree=1, mode='plane strain', nel=1, blocks=_UNSET):
         Mechanics, FunctionSpace, Interpolants, QuadratureRule, Mesh, LinearElastic = _mods()
+        assert nel == 1 or degree == 1
+        self.nel = nel
+        self.blocks = DEFAULT_BLOCKS if blocks is _UNSET else blocks
         self.degree = degree
         self.mode = mode
         self.axi = mode == 'axisymmetric'
         # example vertices (axisymmetric: all radii > 0)
-        self.Xex = onp.asarray(REF) + (onp.array([1.0, 0.0]) if self.axi else 0.0)
+        self.Xex = onp.asarray(REF if nel == 1 else QUAD) + (onp.array([1.0, 0.0]) if self.axi else 0.0)
         self.pe, self.pe1 = Interpolants.make_parent_elements(degree)
         self.qr = QuadratureRule.create_quadrature_rule_on_triangle(qdeg)
         self.shp = Interpolants.compute_shapes(self.pe, self.qr.xigauss)
         self.nn = int(self.pe.coordinates.shape[0])
         self.conns = jnp.arange(self.nn)[None, :]
-        self.state = jnp.zeros((1, len(self.qr), 0))
+        if nel == 2:
+            self.nn, self.conns = 4, jnp.array([[0, 1, 2], [1, 3, 2]])
+        self.state = jnp.zeros((nel, len(self.qr), 0))
         # straight-sided element: node a sits at xi_a*v0 + eta_a*v1 + (1-xi_a-eta_a)*v2 (v = vertices in parent order)
         xi = onp.asarray(self.pe.coordinates)
         self.B = onp.column_stack([xi[:, 0], xi[:, 1], 1.0 - xi[:, 0] - xi[:, 1]])
@@ -82,12 +96,12 @@ class Setup:
         _, FunctionSpace, _, _, Mesh, _ = _mods()
         with jax.ensure_compile_time_eval():
             coords = X if self.degree == 1 else jnp.asarray(self.B) @ X
-            mesh = Mesh.Mesh(coords, self.conns, None, self.pe, self.pe1, None, nodeSets, None)
+            mesh = Mesh.Mesh(coords, self.conns, None, self.pe, self.pe1, self.blocks, nodeSets, None)
             return FunctionSpace.construct_function_space_from_parent_element(mesh, self.shp, self.qr,
                                                                               mode2D='axisymmetric' if self.axi else 'cartesian')
 
     def rand_tri(self, rng):
-        return self.Xex + rng.uniform(-0.2, 0.2, size=(3, 2))
+        return self.Xex + rng.uniform(-0.2, 0.2, size=self.Xex.shape)
 
     def dyn(self, coords, E, nu, rho, beta, gamma, nodeSets=None, fs=None):
         Mechanics, _, _, _, _, LinearElastic = _mods()
@@ -147,10 +161,46 @@ def _box(i, S=None):
             if hi is not None:
                 out.append(v_lt(s0(i[k]), hi))
     if 'X' in i:
-        out.append(v_lt(0.0, area2(i['X'])))
+        X = i['X']
+        out.append(v_lt(0.0, area2(X)))
+        if X.shape[0] == 4:      # two-element mesh: second triangle (1,3,2)
+            out.append(v_lt(0.0, area2(X[[1, 3, 2]])))
         if S is not None and S.axi:
-            out += [v_lt(0.0, i['X'][n, 0]) for n in range(3)]
+            out += [v_lt(0.0, X[n, 0]) for n in range(X.shape[0])]
     return out
+
+
+def _blocks_or_report(h):
+    """the public factory on a block-less mesh (Mesh.blocks = None, what Mesh.construct_mesh_from_basic_data gives without blocks and what
+    the unchanged tree accepts): evaluate the algorithmic energy once on concrete inputs. If the real function raises, that is a
+    behavioural regression of the public function: reported as a violation (with the inputs); the obligations then continue on
+    single-block meshes so that everything else is still decided."""
+    global DEFAULT_BLOCKS
+    name = 'algorithmic_energy_accepts_blockless_mesh'
+    vals = dict(X=REF, E=1.0, nu=0.25, rho=1.0, beta=0.25, gamma=0.5, U=[[0.1, 0.0], [0.0, 0.2], [0.0, 0.0]], Upred=[[0.0, 0.0]] * 3, dt=0.5,
+                blocks=None)
+
+    def probe():
+        S = Setup(blocks=None)
+        d = S.dyn(jnp.asarray(vals['X']), vals['E'], vals['nu'], vals['rho'], vals['beta'], vals['gamma'])
+        return float(d.compute_algorithmic_energy(jnp.asarray(vals['U']), jnp.asarray(vals['Upred']), S.state, vals['dt']))
+    try:
+        e = probe()
+        err = None
+    except Exception as ex:      # the real function raised on a block-less mesh
+        err = '%s: %s' % (type(ex).__name__, ex)
+    if h.replay is not None:
+        if h.replay.get('query') == '%s/%s' % (h.ob, name):
+            h.replay_result = dict(status='violated' if err else 'unreproduced', detail=err or 'algorithmic energy = %r' % e)
+        if err:
+            DEFAULT_BLOCKS = {'block': jnp.array([0])}
+        return
+    if err:
+        h.violation(name, vals, 'create_dynamics_functions(...).compute_algorithmic_energy raises on a mesh without element blocks '
+                                '(Mesh.blocks = None), which the property quantifies over and the reference tree accepts: ' + err)
+        DEFAULT_BLOCKS = {'block': jnp.array([0])}
+    else:
+        h.fact(name, True, 'block-less one-element mesh: algorithmic energy = %.6g' % e, nontrivial=False)
 
 
 def _rand_tri(rng):
@@ -209,18 +259,21 @@ def o1(h):
 
 
 # =========================================================================================== O2
-@obligation(P, 'O2.stationarity_is_momentum_balance', cap=300)
+@obligation(P, 'O2.stationarity_is_momentum_balance', cap=600)
 def o2(h):
     """grad_U algorithmic_energy(U, Upred) = grad SE(U) + grad KE(A') with (V', A') = correct(U - Upred, ...) — the real
     closures on a triangle with SYMBOLIC vertices, moduli, density, beta, gamma, dt and fields"""
+    _blocks_or_report(h)
     _encoded(h)
-    h.bounds('one triangle with symbolic vertices: P1 with the 3-point and 1-point rules in plane strain and P1 with the 3-point rule in '
+    h.bounds('block-less one-element mesh accepted by the factory (ground fact; a raise is a violation); a two-element P1 mesh (4 symbolic '
+             'vertices, both areas > 0) in two element blocks {a:[0], b:[1]}; '
+             'one triangle with symbolic vertices: P1 with the 3-point and 1-point rules in plane strain and P1 with the 3-point rule in '
              'AXISYMMETRIC mode (axisymmetric function space, all vertex radii > 0) (quick), additionally straight-sided P2 with the '
              '3-point rule and axisymmetric P1 with the 1-point rule (thorough); box: ' + BOX + '; U, Upred, V, A: all reals')
     h.assume_note('O2: symbolic denominators nonzero: 1+nu, 1-2nu, beta*dt^2 (implied by the box); Jacobian of the element map non-singular '
                   '(jnp solve encoded relationally, hash-consed)',
                   'O2 axisymmetric: radius at every quadrature point nonzero (denominator of the hoop strain u_r/r; implied by vertex radii > 0)')
-    h.outside('meshes of more than one element (energies are sums over elements; assembly is C14), element order > 2, '
+    h.outside('meshes of more than two elements (energies are sums over elements and blocks; assembly is C14), element order > 2, '
               'non-linear-elastic materials (note: compute_element_hessians evaluates the strain-energy Hessian at U - Upred, which '
               'coincides with the Hessian at U only for a quadratic strain energy), pressure projection')
 
@@ -251,17 +304,33 @@ def o2(h):
         def fh(X, E, nu, rho, beta, gamma, U, Up, dt):
             d = S.dyn(X, E, nu, rho, beta, gamma)
             H = jax.hessian(lambda u: d.compute_algorithmic_energy(u, Up, S.state, dt))(U)
-            return H, d.compute_element_hessians(U, Up, S.state, dt)[0]
+            return H, d.compute_element_hessians(U, Up, S.state, dt)
         Z = S.Z
         exh = dict(X=S.Xex, **EX_PAR, U=Z + 0.1, Up=Z - 0.2, dt=0.1)
         smph = lambda rng: [S.rand_tri(rng)] + _params(rng) + [rng.normal(size=Z.shape) for _ in range(2)] + [rng.uniform(0.05, 1.0)]
         ch = Case(h, fh, exh, sampler=smph, label='element_hessian' + tag, validate=3 if not tag else 1)
-        ch.prove('hessian' + tag, lambda i, o: (_box(i, S), Eq(o[1], o[0], name='element_hessian_is_hessian_of_algorithmic_energy')),
-                 cap=60, order=('core', 'nlsat'))
+        conns = onp.asarray(S.conns)
+
+        def spec_h(i, o):
+            H, He = o
+            n = S.nn
+            G = [[0.0] * (2 * n) for _ in range(2 * n)]      # assembled element Hessians
+            for e in range(conns.shape[0]):
+                for a in range(conns.shape[1]):
+                    for k in range(2):
+                        for b in range(conns.shape[1]):
+                            for l in range(2):
+                                r, c = 2 * int(conns[e, a]) + k, 2 * int(conns[e, b]) + l
+                                G[r][c] = v_add(G[r][c], He[e, a, k, b, l])
+            return _box(i, S), Eq([G[r][c] for r in range(2 * n) for c in range(2 * n)], H, name='element_hessian_is_hessian_of_algorithmic_energy')
+        ch.prove('hessian' + tag, spec_h, cap=60, order=('core', 'nlsat'))
 
     run(Setup(), '', 60, False)
     run(Setup(qdeg=1), '_1pt', 60, False)      # a rule below degree 2p: shows inconsistent quadrature between the energies
     run_hessian(Setup(), '')
+    # two elements in two element blocks {'a': [0], 'b': [1]}: energies are sums over blocks, each weighted once
+    run(Setup(nel=2, blocks=TWO_BLOCKS()), '_2blocks', 120, False)   # 10 s monolithic; per-dof splitting makes a failing tree 8x slower
+    run_hessian(Setup(nel=2, blocks=TWO_BLOCKS()), '_2blocks')
     # axisymmetric mode: every closure must use the same (axisymmetric) kinematics and the 2*pi*r weighted volumes
     AX = AXI_SPLIT
     run(Setup(mode='axisymmetric'), '_axi', 60, AX)
@@ -290,6 +359,7 @@ def o3(h):
     grad SE and grad L are translation invariant and nodal internal forces sum to zero (linear momentum).
     Cut-lemma chain: (L) the real function space's shape gradients sum to zero over the nodes, proved from the
     relational encoding of the element-map solve on the same terms, then used as an assumption in the other goals."""
+    _blocks_or_report(h)
     S = Setup()
     _encoded(h)
     h.bounds('one P1 triangle with symbolic vertices; box: ' + BOX + '; translation a, velocity c, fields U, Upred: all reals')
@@ -428,7 +498,7 @@ NODESETS = {'n%d' % n: onp.array([n]) for n in range(6)}
 
 def _dofs(S, bcs):
     _, FunctionSpace, _, _, _, _ = _mods()
-    fs0 = S.fs(jnp.asarray(REF), nodeSets=NODESETS)
+    fs0 = S.fs(jnp.asarray(S.Xex), nodeSets=NODESETS)
     bc = P2_THREE_FREE if bcs == 'p2_three_free' else BCSETS[bcs]
     return FunctionSpace.DofManager(fs0, 2, [FunctionSpace.EssentialBC(nodeSet='n%d' % n, component=k) for n, k in bc])
 
@@ -609,13 +679,14 @@ def o5(h):
     [KE(V')+SE(U')] - [KE(V)+SE(U)] = dt/4 (V+V').(r_old + r_new) with r_old = [grad SE(U) + M A] and r_new = gradient of the
     stepper's objective at U', both ON THE FREE DOFS ONLY; (corollary) both residuals zero => energy conserved, for every dt>0.
     Constrained dofs carry time-independent displacement and zero velocity/acceleration."""
+    _blocks_or_report(h)
     S = Setup()
     _encoded(h)
     _, FunctionSpace, _, _, _, _ = _mods()
     h.encoded(FunctionSpace.DofManager.create_field)
     sets = ['pin0_roller1y', 'free', 'all_y_fixed'] if not h.thorough() else list(BCSETS)
     h.bounds('one P1 triangle with SYMBOLIC vertices, symbolic E, nu, rho, dt (box: ' + BOX + '), free-dof state '
-             'Uu, Vu, Au, new displacement Un, time-independent essential values Ub: all reals; essential-bc sets: %s (0 to 6 free dofs), 3-point rule; also P1 in AXISYMMETRIC mode (3-point rule; concrete triangle shapes at a symbolic radial position R > 0, moduli/density/dt/state symbolic), P1 with the 1-point rule and one straight-sided P2 triangle with the 3-point rule (9 free dofs; thorough: 12); '
+             'Uu, Vu, Au, new displacement Un, time-independent essential values Ub: all reals; essential-bc sets: %s (0 to 6 free dofs), 3-point rule; also a two-element P1 mesh in two element blocks (5 free dofs; thorough: 8), P1 in AXISYMMETRIC mode (3-point rule; concrete triangle shapes at a symbolic radial position R > 0, moduli/density/dt/state symbolic), P1 with the 1-point rule and one straight-sided P2 triangle with the 3-point rule (9 free dofs; thorough: 12); '
              'reachability witnesses of the hypotheses on concrete triangles %s x materials (E,nu,rho) %s'
              % (sets, sorted(TRIANGLES), sorted(MATERIALS.values())))
     h.outside('conservation over long histories follows by induction over this one-step identity (variable dt covered: dt is a free '
@@ -634,6 +705,11 @@ def o5(h):
         for b in bs:
             dm = _o5_identity(h, St, b, tag=tag)
             _o5_corollary(h, tag[1:] + '/' + b, dm.get_unknown_size())
+    # two elements in two element blocks
+    SB = Setup(nel=2, blocks=TWO_BLOCKS())
+    for b in ['pin0_roller1y'] + (['free'] if h.thorough() else []):
+        dm = _o5_identity(h, SB, b, tag='_2blocks')
+        _o5_corollary(h, '2blocks/' + b, dm.get_unknown_size())
     # axisymmetric mode (axisymmetric function space and kinematics): the same identity
     SA = Setup(mode='axisymmetric')
     axi = [('skew', 'pin0_roller1y')] if not h.thorough() else [(t, b) for t in TRIANGLES for b in ('pin0_roller1y', 'free', 'all_y_fixed')]
